@@ -579,203 +579,19 @@ func instrumentFile(label string, p *packages.Package, f *ast.File, fc *fileCtx)
 			if ls, ok := host.(*ast.LabeledStmt); ok {
 				at = ls.Pos()
 			}
-			if isLocal {
-				keyExpr := "&" + x.Name
-				skip := false
-				if kind == 1 {
-					el, usable := elementWriteTarget(info, innermostStmt(stack), x, fc)
-					if !usable {
-						// a write through a map index or an impure index expression: the variable is
-						// only read here as far as the log can tell without changing the program
-						hk &^= 1
-					} else if el != "" {
-						// (no separate read of the variable itself: a struct and its first field, an
-						// array and its first element share an address)
-						keyExpr = "&" + el
-					}
-				}
-				if kind == 0 {
-					// a read of X[i] / X.f reads that element or field
-					if comp := firstLevelComponent(info, stack, x, host, fc); comp != "" {
-						keyExpr = "__simrt.Addr(func() any { return &" + comp + " })"
-					}
-				}
-				if !skip {
-					fc.insert(at, fmt.Sprintf("__simrt.AccessL(%d, %d, %d, %s); ", sid, id, hk, keyExpr), 1)
-				}
-			} else if comp := firstLevelComponent(info, stack, x, host, fc); comp != "" && !(kind == 1 && wholeVarWrite(innermostStmt(stack), x)) {
-				// a first-level component (array/slice element, struct field): striped state with
-				// one lock per component is then not mistaken for one location. The address is
-				// taken under recover (the hook runs before the statement, possibly before the
-				// check that guards the access).
-				fc.insert(at, fmt.Sprintf("__simrt.AccessC(%d, %d, %d, __simrt.Addr(func() any { return &%s })); ", sid, id, hk, comp), 1)
-			} else {
-				fc.insert(at, fmt.Sprintf("__simrt.Access(%d, %d, %d); ", sid, id, hk), 1)
-			}
+			// a yield point of class 1 (and a site in the inventory); which memory the statement
+			// touches is not recorded: ordering is judged by the race detector in lane R
+			_ = isLocal
+			fc.insert(at, fmt.Sprintf("__simrt.Access(%d, %d, %d); ", sid, id, hk), 1)
 		}
 		return true
 	}
 	ast.Inspect(f, visit)
 }
 
-// elementWriteTarget: if stmt assigns to (or increments) a field / element path rooted at the
-// identifier id - X.f, X[i], X[i][j].f ... through struct fields and slice/array indexes
-// only - it returns the source text of that path, whose address identifies the memory that
-// is written (several goroutines filling their own slot or field is the standard correct
-// idiom). It returns "" for a plain `X = ...` and ok=false when the path cannot be used
-// (a map index, or an index expression that is not free of side effects: evaluating it a
-// second time would change the program).
-func elementWriteTarget(info *types.Info, stmt ast.Stmt, id *ast.Ident, fc *fileCtx) (string, bool) {
-	var lhs []ast.Expr
-	switch x := stmt.(type) {
-	case *ast.AssignStmt:
-		lhs = x.Lhs
-	case *ast.IncDecStmt:
-		lhs = []ast.Expr{x.X}
-	}
-	for _, l := range lhs {
-		e := l
-		ok := true
-		viaMap := false
-		depth := 0
-		for {
-			switch y := e.(type) {
-			case *ast.ParenExpr:
-				e = y.X
-				continue
-			case *ast.SelectorExpr:
-				e = y.X
-				depth++
-				continue
-			case *ast.StarExpr:
-				e = y.X
-				depth++
-				continue
-			case *ast.IndexExpr:
-				if _, isMap := info.TypeOf(y.X).Underlying().(*types.Map); isMap {
-					viaMap = true // writing a map entry writes the map itself
-				} else if !pureExpr(y.Index) {
-					ok = false
-				}
-				e = y.X
-				depth++
-				continue
-			}
-			break
-		}
-		if base, isID := e.(*ast.Ident); isID && base == id {
-			if depth == 0 || viaMap {
-				return "", true
-			}
-			if !ok {
-				return "", false
-			}
-			return fc.text(l), true
-		}
-	}
-	return "", true
-}
 
-// firstLevelComponent: if the identifier (a package variable) is used as X in X[i] (slice,
-// array, pointer to array; pure index whose identifiers are all declared before the host
-// statement) or X.f (a struct field, not a method), the source text of that component.
-func firstLevelComponent(info *types.Info, stack []ast.Node, id *ast.Ident, host ast.Stmt, fc *fileCtx) string {
-	// parent of the identifier (skipping a package qualifier: pkg.Var)
-	i := len(stack) - 2
-	var self ast.Expr = id
-	if i >= 0 {
-		if se, ok := stack[i].(*ast.SelectorExpr); ok && se.Sel == id {
-			self = se
-			i--
-		}
-	}
-	if i < 0 {
-		return ""
-	}
-	switch p := stack[i].(type) {
-	case *ast.SelectorExpr:
-		if p.X != self {
-			return ""
-		}
-		if sel := info.Selections[p]; sel == nil || sel.Kind() != types.FieldVal || len(sel.Index()) != 1 {
-			return ""
-		}
-		return fc.text(p)
-	case *ast.IndexExpr:
-		if p.X != self || !pureExpr(p.Index) {
-			return ""
-		}
-		switch t := info.TypeOf(p.X).Underlying().(type) {
-		case *types.Slice, *types.Array:
-		case *types.Pointer:
-			if _, isArr := t.Elem().Underlying().(*types.Array); !isArr {
-				return ""
-			}
-		default:
-			return ""
-		}
-		inScope := true
-		ast.Inspect(p.Index, func(n ast.Node) bool {
-			if x, ok := n.(*ast.Ident); ok {
-				if obj := info.Uses[x]; obj != nil && obj.Pkg() != nil && obj.Parent() != obj.Pkg().Scope() && !(obj.Pos() < host.Pos()) {
-					inScope = false
-				}
-			}
-			return inScope
-		})
-		if !inScope {
-			return ""
-		}
-		return fc.text(p)
-	}
-	return ""
-}
 
-// wholeVarWrite: the statement assigns to the identifier itself (X = ..., X++).
-func wholeVarWrite(stmt ast.Stmt, id *ast.Ident) bool {
-	var lhs []ast.Expr
-	switch x := stmt.(type) {
-	case *ast.AssignStmt:
-		lhs = x.Lhs
-	case *ast.IncDecStmt:
-		lhs = []ast.Expr{x.X}
-	}
-	for _, l := range lhs {
-		for {
-			if pe, ok := l.(*ast.ParenExpr); ok {
-				l = pe.X
-				continue
-			}
-			break
-		}
-		if l == ast.Expr(id) {
-			return true
-		}
-		if se, ok := l.(*ast.SelectorExpr); ok && se.Sel == id {
-			if _, isPkg := se.X.(*ast.Ident); isPkg {
-				return true
-			}
-		}
-	}
-	return false
-}
 
-// pureExpr: identifiers, literals, selectors and arithmetic on them - no calls, no receives.
-func pureExpr(e ast.Expr) bool {
-	pure := true
-	ast.Inspect(e, func(n ast.Node) bool {
-		switch x := n.(type) {
-		case *ast.CallExpr, *ast.FuncLit:
-			pure = false
-		case *ast.UnaryExpr:
-			if x.Op == token.ARROW {
-				pure = false
-			}
-		}
-		return pure
-	})
-	return pure
-}
 
 // innermostStmt returns the innermost statement on the stack (listed or not): the
 // statement whose syntactic form decides whether an identifier in it is written.
